@@ -1299,3 +1299,11 @@ for _p in ("C08", "C10"):
 _CHILD_EDGES = "        directed_edges += [(i, j) for j in ch(i, G)]\n"
 V("r7-c10-child-edges-only-for-sources", "C10", "fire", UT, _CHILD_EDGES, "        if len(pa(i, P)) == 0:\n            directed_edges += [(i, j) for j in ch(i, G)]\n", rule="ORIENT.edges",
   what="the edges from a target to its children are oriented only when the target has no parent in the CPDAG")
+V("trap-c16-sort-assigned", "C16", "fire", UT, "    S = list(S)\n    subgraph = A[S, :][:, S]\n", "    S = list(S)\n    S = S.sort()\n    subgraph = A[S, :][:, S]\n", rule="TRAP.none-returning",
+  what="`S = S.sort()` leaves None in S")
+V("trap-c17-is-literal", "C17", "fire", UT, "            if i < n_folds - 1:\n", "            if i is not n_folds - 1 and (n_folds is 1) is False:\n", rule=None,
+  what="identity comparison of integers", accept_inconclusive=True)
+V("trap-c12-is-literal", "C12", "fire", GE, "    if isinstance(size, tuple) and len(size) == 2:", "    if isinstance(size, tuple) and len(size) is 2:", rule="TRAP.is-literal",
+  what="`len(size) is 2`: identity of small ints is an implementation detail")
+V("trap-c05-max-of-two", "C05", "fire", ND, "        cov_x = utils.matrix_block(self.covariance, X, X)\n", "        cov_x = utils.matrix_block(self.covariance, X, X)\n        _scale = np.max(np.abs(cov_x), np.abs(cov_x).T)\n", rule="TRAP.max-of-two",
+  what="np.max with two arrays (the second one is taken as the axis)", accept_inconclusive=True)
